@@ -1618,8 +1618,18 @@ func (h *fsmHandler) opensent(ctx context.Context) (bgp.FSMState, *fsmStateReaso
 			default:
 			}
 			if e != nil {
-				nextState, _, _ := fsm.handleOpen(e)
-				if nextState == bgp.BGP_FSM_OPENCONFIRM {
+				nextState, _, notif := fsm.handleOpen(e)
+				if nextState != bgp.BGP_FSM_OPENCONFIRM {
+					// what arrived on the incoming connection has to be refused:
+					// answer it and drop that connection, which nobody would
+					// read or close any more; the session goes on on the
+					// outgoing one.
+					if notif != nil {
+						_ = fsm.sendNotification(incomingConn, notif)
+					} else {
+						incomingConn.Close()
+					}
+				} else {
 					// collision detected
 					isDominant := fsm.isDominant(result.open.Body.(*bgp.BGPOpen))
 					if isDominant {
